@@ -386,5 +386,111 @@ theorem grad_two (bm : BMode) (H : Heap ℝ) (root : Nat) (hdag : HeapDag H) (ht
         exact hs2
       · exact absurd het (hother v hv hv1 hv2 e he)
 
+/-- a sum over a duplicate-free list in which only the members of a duplicate-free sublist `S` contribute -/
+theorem sum_members (F : Nat → ℝ) : ∀ (L : List Nat), L.Nodup → ∀ (S : List Nat), S.Nodup → (∀ u ∈ S, u ∈ L) →
+    (∀ u ∈ L, u ∉ S → F u = 0) → (L.map F).sum = (S.map F).sum := by
+  intro L
+  induction L with
+  | nil =>
+    intro _ S _ hsub _
+    cases S with
+    | nil => rfl
+    | cons a S => exact absurd (hsub a (by simp)) (by simp)
+  | cons x L ih =>
+    intro hnd S hS hsub h0
+    have hx := List.nodup_cons.mp hnd
+    simp only [List.map_cons, List.sum_cons]
+    by_cases hxS : x ∈ S
+    · have hp := List.perm_cons_erase hxS
+      have : (S.map F).sum = F x + ((S.erase x).map F).sum := by
+        have := (hp.map F).sum_eq
+        simpa using this
+      rw [this]
+      congr 1
+      apply ih hx.2 (S.erase x) (hS.erase x)
+      · intro u hu
+        have huS : u ∈ S := List.mem_of_mem_erase hu
+        have hux : u ≠ x := fun e => by
+          subst e
+          exact (List.Nodup.not_mem_erase hS) hu
+        rcases List.mem_cons.mp (hsub u huS) with h | h
+        · exact absurd h hux
+        · exact h
+      · intro u hu hnot
+        apply h0 u (List.mem_cons_of_mem _ hu)
+        intro huS
+        apply hnot
+        have hux : u ≠ x := fun e => hx.1 (by rw [← e]; exact hu)
+        exact (List.mem_erase_of_ne hux).mpr huS
+    · rw [h0 x (by simp) hxS, zero_add]
+      apply ih hx.2 S hS
+      · intro u hu
+        rcases List.mem_cons.mp (hsub u hu) with h | h
+        · exact absurd (h ▸ hu) hxS
+        · exact h
+      · intro u hu hnot
+        exact h0 u (List.mem_cons_of_mem _ hu) hnot
+
+/-- one consumer of `n`: the visited tensor, the rule of its back edge into `n`, its final gradient, what the rule delivers -/
+structure Consumer where
+  u : Nat
+  rule : Rule ℝ
+  gy : Tensor ℝ
+  g : Tensor ℝ
+
+/-- **any number of consumers**, each with exactly one back edge into `n`: `n` receives a tensor that pairs like the sum of
+    the deliveries -/
+theorem grad_list (bm : BMode) (H : Heap ℝ) (root : Nat) (hdag : HeapDag H) (htr : H.tracked root = true)
+    (hok : (backprop bm H root).status = .ok ()) (n : Nat) (hnr : n ≠ root)
+    (hg : H.grad n = none) (htn : H.tracked n = true) (cs : List Consumer) (hne : cs ≠ [])
+    (hnd : (cs.map (·.u)).Nodup) (ds : List Nat)
+    (hc : ∀ c ∈ cs, c.u ∈ backwardOrder H root ∧
+      (H.ctx c.u).edges.filter (fun e => decide (e.target = n)) = [⟨n, c.rule⟩] ∧
+      (backprop bm H root).heap.grad c.u = some c.gy ∧
+      evalRule bm (markDirty H (backwardOrder H root)) c.gy c.rule = .ok c.g ∧ Shaped ds c.g)
+    (hother : ∀ v ∈ backwardOrder H root, v ∉ cs.map (·.u) → ∀ e ∈ (H.ctx v).edges, e.target ≠ n)
+    (E : Tensor ℝ) (sE : Shaped ds E) (hE : ∀ t, dotp E t = (cs.map (fun c => dotp c.g t)).sum) :
+    (backprop bm H root).heap.grad n = some E := by
+  obtain ⟨_, hcl, _, hndL⟩ := backwardOrder_spec H root hdag htr
+  have hmem : n ∈ backwardOrder H root := by
+    cases cs with
+    | nil => exact absurd rfl hne
+    | cons c cs =>
+      obtain ⟨hu, hf, _, _, _⟩ := hc c (by simp)
+      have hedge : (⟨n, c.rule⟩ : Edge ℝ) ∈ (H.ctx c.u).edges := by
+        have : (⟨n, c.rule⟩ : Edge ℝ) ∈ (H.ctx c.u).edges.filter (fun e => decide (e.target = n)) := by rw [hf]; simp
+        exact (List.mem_filter.mp this).1
+      apply hcl c.u hu
+      unfold succs
+      exact List.mem_filter.mpr ⟨List.mem_map.mpr ⟨⟨n, c.rule⟩, hedge, rfl⟩, htn⟩
+  apply grad_eq bm H root hdag htr hok n hmem hnr hg ds ?_ E sE
+  · intro t
+    rw [sum_members _ (backwardOrder H root) hndL (cs.map (·.u)) hnd]
+    · rw [hE t, List.map_map]
+      congr 1
+      apply List.map_congr_left
+      intro c hcm
+      obtain ⟨_, hf, hgy, hp, _⟩ := hc c hcm
+      simp only [Function.comp]
+      rw [edge_sum_single H _ _ n c.u t c.rule htn hf, hgy]
+      simp only [hp]
+    · intro u hu
+      obtain ⟨c, hcm, rfl⟩ := List.mem_map.mp hu
+      exact (hc c hcm).1
+    · intro v hv hnot
+      exact edge_sum_none H _ _ n v t (hother v hv hnot)
+  · intro v hv e he _ het gy' g' hgy' h'
+    by_cases hvS : v ∈ cs.map (·.u)
+    · obtain ⟨c, hcm, rfl⟩ := List.mem_map.mp hvS
+      obtain ⟨_, hf, hgy, hp, hs⟩ := hc c hcm
+      have : e ∈ (H.ctx c.u).edges.filter (fun e => decide (e.target = n)) := List.mem_filter.mpr ⟨he, by simpa using het⟩
+      rw [hf] at this
+      simp at this
+      subst this
+      rw [hgy] at hgy'; cases hgy'
+      rw [hp] at h'; cases h'
+      exact hs
+    · exact absurd het (hother v hv hvS e he)
+
 end C01w
 end Qeep
